@@ -30,7 +30,7 @@ TempPool == { Q(R(10), S("K")), Q(R(18), S("R")), Q(R(10), S("delta_C")), Q(R(18
               Q(R(4), Mul(S("delta_C"), S("m"))) }
 LogPool == { Q(R(20), S("dBm")), Q(Zero, S("dBm")), Q(R(-10), S("dBm")), Q(<<1, 10>>, S("W")), Q(<<1, 1000>>, S("W")),
              Q(R(30), S("dB")), Q(Zero, S("dB")), Q(R(3), S("oct")), Q(Zero, S("oct")), Q(R(8), Empty), Q(R(1000), Empty), Q(One, Empty) }
-BinOps == {"to", "add", "sub", "mul", "div"}
+BinOps == {"to", "add", "sub", "mul", "div", "lt", "gt", "eq"}
 UnOps == {"muln", "divn", "rdivn", "pow0", "pow1", "pow2", "neg", "eq0", "gt0", "bool"}
 Two == Num(R(2))
 Eval(ac, x, y, o) ==
@@ -39,6 +39,8 @@ Eval(ac, x, y, o) ==
       [] o = "sub" -> AddSub(Reg, ac, x, y, "sub")
       [] o = "mul" -> MulDivQ(Reg, ac, x, y, "mul")
       [] o = "div" -> MulDivQ(Reg, ac, x, y, "div")
+      [] o \in {"lt", "gt"} -> CmpQ(Reg, ac, x, y, o)
+      [] o = "eq" -> EqQ(Reg, ac, x, y)
       [] o = "muln" -> MulDivN(Reg, ac, x, R(2), "mul")
       [] o = "divn" -> MulDivN(Reg, ac, x, R(2), "div")
       [] o = "rdivn" -> RDivN(Reg, ac, x, R(2))
@@ -97,6 +99,9 @@ MulDivAutoThroughBase == Temp /\ ac /\ op \in {"mul", "div"} /\ IsOffsetQ(a) /\ 
 PowAutoThroughBase == stage = 2 /\ ac /\ op = "pow2" /\ IsOffsetQ(a) => LET ra == ToRoot(Reg, TRUE, a) IN res = Ok(RMul(ra.m, ra.m), Pow(ra.u, R(2)))
 HigherOrderRefused == stage = 2 /\ a.u = Single("C", R(2)) /\ op \in {"to", "add", "sub", "mul", "div", "muln", "pow2"} /\ (op = "to" => b.u # a.u)
                         /\ (op \in {"add", "sub"} => b.u # a.u) => ~IsOk(res)
+\* ordering of temperatures in different scales follows the absolute temperature
+OrderThroughAffineMaps == Temp /\ op \in {"lt", "gt"} /\ (IsOffsetQ(a) \/ IsAbsQ(a)) /\ (IsOffsetQ(b) \/ IsAbsQ(b)) =>
+                        res = Bool(CmpRat(op, ToRoot(Reg, TRUE, a).m, ToRoot(Reg, TRUE, b).m))
 \* logarithmic units: defining map on the lattice, inverse, refusal across dimensions
 LogDefiningMap == stage = 2 /\ a \in LogPool /\ op = "to" /\ Sole(a) /\ IsLog(Reg, Name(a)) /\ b.u = Reg.units[Name(a)].ref =>
                         res = Ok(ToRef(Reg, Name(a), a.m), b.u)
